@@ -135,6 +135,9 @@ func (y *rtWalker) run() {
 		if is.Path.Value == `"sync"` || is.Path.Value == `"sync/atomic"` {
 			y.rep.UsesSync = true
 		}
+		if is.Path.Value == `"sync/atomic"` {
+			y.rep.SyncOther = append(y.rep.SyncOther, w.rel+": imports sync/atomic")
+		}
 	}
 	var funcStack []string
 	skip := map[*ast.BlockStmt]bool{} // bodies of switch/select hold clauses, not statements
@@ -219,6 +222,19 @@ func (y *rtWalker) run() {
 				}
 				w.es.replace(w.off(x.Pos()), w.off(sel.X.Pos()), "verifhook."+fnName+"("+amp)
 				w.es.replace(w.off(sel.X.End()), w.off(x.End()), ")")
+				y.rep.SyncCalls++
+				y.needHook = true
+			} else if tn == "Pool" && (m == "Get" || m == "Put") && len(s.Index()) == 1 {
+				amp := "&"
+				if ptr {
+					amp = ""
+				}
+				sep := ""
+				if len(x.Args) > 0 {
+					sep = ", "
+				}
+				w.es.replace(w.off(x.Pos()), w.off(sel.X.Pos()), "verifhook.Pool"+m+"("+amp)
+				w.es.replace(w.off(sel.X.End()), w.off(x.Lparen)+1, sep)
 				y.rep.SyncCalls++
 				y.needHook = true
 			} else {
